@@ -5,7 +5,7 @@ from __future__ import annotations
 import z3
 
 from . import model as M
-from .model import (EMPTY, Int, Bool, KIND, NULL, PYNONE, Ref, Str, ElemRef, NodeVal, NodeVec, Opaque, Ptr, PyObj, ScalarVec,
+from .model import (EMPTY, Int, Bool, KIND, NULL, PYNONE, Ref, Str, ElemRef, NodeVal, NodeVec, Opaque, OptNode, Ptr, PyObj, ScalarVec,
                     SpecObj, Tup, WFView, fresh)
 from .symex import Ctx, Engine, State, Unsupported, type_class
 
@@ -21,8 +21,10 @@ def contract(cls):
 class Loop:
     """Loop specification: inv(cx) -> [(name, formula)], optional body_post(cx), decreases(cx), index, modifies."""
 
-    def __init__(self, inv, body_post=None, decreases=None, index=None, modifies=(), seq_len=None):
+    def __init__(self, inv, body_post=None, decreases=None, index=None, modifies=(), seq_len=None, hints=None):
         self.inv = inv
+        if hints is not None:
+            self.hints = hints
         if body_post is not None:
             self.body_post = body_post
         if decreases is not None:
@@ -108,7 +110,7 @@ class Contract:
         raise Unsupported(f'parameter {nm}: {p.t}')
 
     def optional_node(self, eng, st, p):
-        return Opaque('nullopt')
+        return OptNode(z3.Bool(p.name + '.has'), NodeVal.symbolic(p.name))
 
     def other_param(self, eng, st, p):
         # template span parameters etc. (decided by the contract)
